@@ -60,6 +60,11 @@ def main():
                         for which, tree in (("mut", wt), ("clean", clean)):
                             exe = "/tmp/seedconf_demo_%s_%s" % (name, which)
                             b = build.replace(m.group(0), tree)
+                            src = open(demo).read()
+                            if m.group(0) in src:     # the demonstration includes allocator sources by absolute path: compile a redirected copy
+                                cp = "/tmp/seedconf_src_%s_%s%s" % (name, which, os.path.splitext(demo)[1])
+                                open(cp, "w").write(src.replace(m.group(0), tree))
+                                b = b.replace(demo, cp)
                             b = re.sub(r"-o\s+\S+", "-o " + exe, b)
                             if "-o " not in b:
                                 b += " -o " + exe
